@@ -162,28 +162,41 @@ func checkC05(p *Prog, rp *Report) {
 
 	// C05-BYTES
 	by := rp.Rule("C05-BYTES", "input bytes are copied, never re-encoded", 1)
-	nconv := 0
-	for _, f := range reachableRepoFuncs(parse) {
-		for _, b := range f.Blocks {
-			for _, ins := range b.Instrs {
-				cv, ok := ins.(*ssa.Convert)
-				if !ok {
-					continue
-				}
-				fb, _ := cv.X.Type().Underlying().(*types.Basic)
-				tb, _ := cv.Type().Underlying().(*types.Basic)
-				if fb != nil && tb != nil && fb.Info()&types.IsInteger != 0 && tb.Info()&types.IsString != 0 {
-					if _, isConst := cv.X.(*ssa.Const); isConst {
-						continue
+	{
+		// (a) on the parser transition system: a conversion integer -> string (or []rune -> string) of an input
+		// symbol whose class contains a byte >= 0x80 is a re-encoding; (b) a concrete probe with such bytes.
+		pmB, whyB := buildParserModel(p)
+		if pmB != nil && len(pmB.undec) == 0 {
+			if w, bad := pmB.events["int-to-string"]; bad {
+				by.bad("dependency.parser", p.Pos(parse.Pos()), fmt.Sprintf("an input byte >= 0x80 is converted through its code point (string(b) / string([]rune{...})): it becomes two bytes, and every render/parse cycle doubles it again (input starting %q)", w), nil)
+			} else {
+				by.ok("dependency.parser", p.Pos(parse.Pos()), "on the parser transition system no input symbol that can be a byte >= 0x80 is converted to a string through its code point")
+			}
+		} else {
+			if pmB != nil {
+				whyB = pmB.undec[0]
+			}
+			probe := "f\xe9\xffo:a\xe9y (>= 1\xe9) [a\xe9 b] <p\xe9>, ${v\xe9r}"
+			m := NewMachine(p, nil)
+			installStringModels(m)
+			installFuncModels(m)
+			installUnicodeModels(m)
+			st := initState(m, "dependency")
+			st.push(parse, []Val{probe}, nil)
+			out := m.Run(st)
+			if len(out) != 1 || out[0].Status != stRet {
+				by.undecided("dependency.parser", p.Pos(parse.Pos()), "parser transition system: "+whyB+"; concrete probe: "+retDesc(out))
+			} else {
+				r := deepRender(st, st.Ret, 0)
+				okAll := true
+				for _, frag := range []string{`"f\xe9\xffo"`, `"a\xe9y"`, `"1\xe9"`, `"p\xe9"`, `"v\xe9r"`} {
+					if !strings.Contains(r, frag) {
+						okAll = false
 					}
-					nconv++
-					by.bad(fname(f)+":string(int)", p.Pos(cv.Pos()), "string(b) of an integer is the UTF-8 encoding of the code point b: an input byte >= 0x80 becomes two bytes, and every render/parse cycle doubles it again", nil)
 				}
+				by.check(okAll, "dependency.parser", p.Pos(parse.Pos()), "(bounded: the parser left the transition-system model) a probe with bytes >= 0x80 in every token kind parses to tokens holding exactly those bytes", "bytes >= 0x80 of the input do not arrive unchanged in the parsed tokens: "+clip(r, 300))
 			}
 		}
-	}
-	if nconv == 0 {
-		by.ok("dependency.parser", p.Pos(parse.Pos()), "no integer-to-string conversion in the parser's call tree")
 	}
 
 	// C05-NOEMPTY (from the parser model)
@@ -193,7 +206,12 @@ func checkC05(p *Prog, rp *Report) {
 		if pm != nil {
 			why = pm.undec[0]
 		}
-		ne.undecided("dependency.Parse", p.Pos(parse.Pos()), "parser transition system: "+why)
+		b := parserBounded(p)
+		if b.undecided != "" {
+			ne.undecided("dependency.Parse", p.Pos(parse.Pos()), "parser transition system: "+why+"; bounded exploration: "+b.undecided)
+		} else {
+			fillProblems(ne, "dependency.Parse", p.Pos(parse.Pos()), b.noempty, fmt.Sprintf("(bounded: the parser left the transition-system model) %d accepted grammar words and every string of up to 3 bytes over the parser's punctuation (%d): no relation without alternatives, no empty profile group or architecture list is stored", b.nClass["valid"], b.nSweep))
+		}
 	} else {
 		n := 0
 		var evs []string
